@@ -31,10 +31,10 @@ var watchdog = 3 * time.Second
 
 var outcomeNames = map[byte]string{'s': "same", 'i': "io", 'm': "malformed", 'd': "different-data", 'o': "error-without-cause", 't': "timeout", 'p': "panic"}
 
-func caseInfo(d *doc, what string, k, total int, only bool, l label, got result) map[string]any {
+func caseInfo(d *doc, what string, k, total int, fm fmode, l label, got result) map[string]any {
 	c := map[string]any{
 		"doc": d.name, "doc_class": d.class, "call": what, "k": k, "reads_in_clean_run": total,
-		"fault": map[bool]string{true: "only-k", false: "from-k"}[only],
+		"fault": fm.String() + "-k",
 		"read_phase": l.phase, "read_kind": string(l.kind),
 		"doc_sha256": fmt.Sprintf("%x", sha256.Sum256(d.data)), "doc_len": len(d.data),
 		"password": d.pw,
@@ -53,28 +53,44 @@ func caseInfo(d *doc, what string, k, total int, only bool, l label, got result)
 }
 
 // judge records one faulted call.
-func judge(d *doc, what string, opKind string, k, total int, only bool, l label, clean, got result) byte {
+func judge(d *doc, what string, opKind string, k, total int, fm fmode, l label, clean, got result) byte {
 	o := classify(clean, got)
 	nontrivial := got.fired || got.timeout
-	e.Count(nontrivial, fmt.Sprintf("%s|%s|%d|%v", d.name, what, k, only), fmt.Sprintf("%s/%c/%s", opKind, l.kind, outcomeNames[o]))
+	e.Count(nontrivial, fmt.Sprintf("%s|%s|%d|%v", d.name, what, k, fm), fmt.Sprintf("%s/%c/%s", opKind, l.kind, outcomeNames[o]))
 	if o != 's' && o != 'i' {
 		ph := l.phase
 		if ph == "" {
 			ph = "-"
 		}
 		sig := fmt.Sprintf("read:%s:%s:%s:%c", outcomeNames[o], opKind, ph, l.kind)
-		if opKind == "seqopen" && ph == "xref" {
+		if fm == fmOne {
+			// one cause whatever the call: scanner.PeekN hands out a short view
+			// without the error its refill has just latched
+			sig = fmt.Sprintf("read:%s:one-byte-read-with-error", outcomeNames[o])
+		} else if opKind == "seqopen" && ph == "xref" {
 			// MakeReader's getTrailer: one cause whatever kind of read fails
 			sig = fmt.Sprintf("read:%s:MakeReader.getTrailer", outcomeNames[o])
 		}
 		msg := fmt.Sprintf("%s of %s with the byte source failing %s at ReadAt #%d/%d (%s/%c): %s",
-			what, d.class, map[bool]string{true: "only", false: "from"}[only], k, total, l.phase, l.kind, outcomeNames[o])
+			what, d.class, fm.String(), k, total, l.phase, l.kind, outcomeNames[o])
 		if got.err != nil {
 			msg += ": " + trunc(got.err.Error(), 120)
 		}
-		e.Fail(sig, msg, caseInfo(d, what, k, total, only, l, got))
+		failCapped(sig, msg, caseInfo(d, what, k, total, fm, l, got))
 	}
 	return o
+}
+
+// failCapped records at most a few failing inputs per signature: the common
+// library keeps 200 records per run, and one open finding must not crowd out a
+// different failure found later in the run.
+var failsPerSig = map[string]int{}
+
+func failCapped(sig, what string, c any) {
+	failsPerSig[sig]++
+	if failsPerSig[sig] <= 6 {
+		e.Fail(sig, what, c)
+	}
 }
 
 func trunc(s string, n int) string {
@@ -84,7 +100,7 @@ func trunc(s string, n int) string {
 	return s
 }
 
-func fmName(only bool) string {
+func fmName(only bool) string { // sink side: two modes
 	if only {
 		return "only"
 	}
@@ -159,7 +175,7 @@ func exploreOpen(di int, d *doc, mi int) {
 		return
 	}
 	if clean.timeout || clean.panicked != "" {
-		e.Fail("read:clean-run-broken", "fault-free NewReader hangs or panics on "+d.class, caseInfo(d, "NewReader/"+m.name, 0, total, false, label{}, clean))
+		failCapped("read:clean-run-broken", "fault-free NewReader hangs or panics on "+d.class, caseInfo(d, "NewReader/"+m.name, 0, total, fmFrom, label{}, clean))
 		return
 	}
 	if clean.err != nil && d.bad == "" {
@@ -169,17 +185,17 @@ func exploreOpen(di int, d *doc, mi int) {
 	if clean.err == nil {
 		rec = fmt.Sprint(nerr)
 	}
-	for _, only := range []bool{false, true} {
-		id := fmt.Sprintf("d%d.open.%s.%s", di, m.name, fmName(only))
+	for _, fm := range fmodes {
+		id := fmt.Sprintf("d%d.open.%s.%s", di, m.name, fm.String())
 		bad := d.bad
 		if bad == "" {
 			bad = "-"
 		}
-		e.Line("cases.txt", "%s O %d %s %s %s", id, int(m.m), fmName(only), bad, groupsString(labels))
+		e.Line("cases.txt", "%s O %d %s %s %s", id, int(m.m), fm.String(), bad, groupsString(labels))
 		letters := make([]byte, 0, total)
 		for k := 1; k <= total; k++ {
 			fs := &faultSrc{data: d.data}
-			fs.arm(k, only)
+			fs.arm(k, fm)
 			got := guarded(watchdog, func() (string, error) {
 				r, err := openWith(fs, d, m.m)
 				if err != nil {
@@ -191,7 +207,7 @@ func exploreOpen(di int, d *doc, mi int) {
 				return
 			}
 			got.fired = fs.fired
-			letters = append(letters, judge(d, "NewReader/"+m.name, "open", k, total, only, labels[k-1], clean, got))
+			letters = append(letters, judge(d, "NewReader/"+m.name, "open", k, total, fm, labels[k-1], clean, got))
 		}
 		e.Line("impl.obs", "%s %s clean=%s rec=%s", id, dash(string(letters)), cleanClass(clean), rec)
 	}
@@ -234,7 +250,7 @@ func exploreOps(di int, d *doc) {
 	}
 	for j, o := range opsFor(d, streams, pages) {
 		var labels []label
-		src.arm(0, false)
+		src.arm(0, fmFrom)
 		src.labels = &labels
 		clean := guarded(watchdog, func() (string, error) { return o.run(r) })
 		src.labels = nil
@@ -243,25 +259,25 @@ func exploreOps(di int, d *doc) {
 			return
 		}
 		if clean.timeout || clean.panicked != "" {
-			e.Fail("read:clean-run-broken", "fault-free "+o.name+" hangs or panics on "+d.class, caseInfo(d, o.name, 0, total, false, label{}, clean))
+			failCapped("read:clean-run-broken", "fault-free "+o.name+" hangs or panics on "+d.class, caseInfo(d, o.name, 0, total, fmFrom, label{}, clean))
 			continue
 		}
 		cb := 0
 		if clean.err != nil {
 			cb = 1
 		}
-		for _, only := range []bool{false, true} {
-			id := fmt.Sprintf("d%d.op%d.%s", di, j, fmName(only))
-			e.Line("cases.txt", "%s %c %s %d %s", id, o.kind, fmName(only), cb, kindsString(labels))
+		for _, fm := range fmodes {
+			id := fmt.Sprintf("d%d.op%d.%s", di, j, fm.String())
+			e.Line("cases.txt", "%s %c %s %d %s", id, o.kind, fm.String(), cb, kindsString(labels))
 			letters := make([]byte, 0, total)
 			for k := 1; k <= total; k++ {
-				src.arm(k, only)
+				src.arm(k, fm)
 				got := guarded(watchdog, func() (string, error) { return o.run(r) })
 				if got.skipped {
 					return
 				}
 				got.fired = src.fired
-				letters = append(letters, judge(d, o.name, opKindName(o.kind), k, total, only, labels[k-1], clean, got))
+				letters = append(letters, judge(d, o.name, opKindName(o.kind), k, total, fm, labels[k-1], clean, got))
 				if got.timeout {
 					// the source may still be in use by the stuck goroutine
 					src = &faultSrc{data: d.data}
@@ -271,17 +287,17 @@ func exploreOps(di int, d *doc) {
 					}
 					continue
 				}
-				if only {
+				if fm != fmFrom {
 					// the fault is over: the same call must again give the clean result
-					src.arm(0, false)
+					src.arm(0, fmFrom)
 					again := guarded(watchdog, func() (string, error) { return o.run(r) })
 					if again.skipped {
 						return
 					}
 					if c := classify(clean, again); c != 's' {
-						e.Fail("read:poisoned-after-one-shot-fault:"+opKindName(o.kind),
+						failCapped("read:poisoned-after-one-shot-fault:"+opKindName(o.kind),
 							fmt.Sprintf("%s of %s: after a one-shot fault at ReadAt #%d the fault-free repeat of the call is %s", o.name, d.class, k, outcomeNames[c]),
-							caseInfo(d, o.name, k, total, only, labels[k-1], again))
+							caseInfo(d, o.name, k, total, fm, labels[k-1], again))
 					}
 				}
 			}
@@ -323,26 +339,26 @@ func exploreSeq(di int, d *doc, mi int) {
 		return
 	}
 	if clean.timeout || clean.panicked != "" {
-		e.Fail("read:clean-run-broken", "fault-free SequentialScan/MakeReader hangs or panics on "+d.class, caseInfo(d, "SequentialScan+MakeReader/"+m.name, 0, total, false, label{}, clean))
+		failCapped("read:clean-run-broken", "fault-free SequentialScan/MakeReader hangs or panics on "+d.class, caseInfo(d, "SequentialScan+MakeReader/"+m.name, 0, total, fmFrom, label{}, clean))
 		return
 	}
-	for _, only := range []bool{false, true} {
-		id := fmt.Sprintf("d%d.seq.%s.%s", di, m.name, fmName(only))
+	for _, fm := range fmodes {
+		id := fmt.Sprintf("d%d.seq.%s.%s", di, m.name, fm.String())
 		bad := d.bad
 		if bad == "" {
 			bad = "-"
 		}
-		e.Line("cases.txt", "%s Q %d %s %s %s", id, int(m.m), fmName(only), bad, groupsString(labels))
+		e.Line("cases.txt", "%s Q %d %s %s %s", id, int(m.m), fm.String(), bad, groupsString(labels))
 		letters := make([]byte, 0, total)
 		for k := 1; k <= total; k++ {
 			fs := &faultSrc{data: d.data}
-			fs.arm(k, only)
+			fs.arm(k, fm)
 			got := guarded(watchdog, func() (string, error) { return run(fs) })
 			if got.skipped {
 				return
 			}
 			got.fired = fs.fired
-			letters = append(letters, judge(d, "SequentialScan+MakeReader/"+m.name, "seqopen", k, total, only, labels[k-1], clean, got))
+			letters = append(letters, judge(d, "SequentialScan+MakeReader/"+m.name, "seqopen", k, total, fm, labels[k-1], clean, got))
 		}
 		e.Line("impl.obs", "%s %s", id, dash(string(letters)))
 	}
@@ -402,8 +418,9 @@ func main() {
 	}
 	if only == "" {
 		chainSide(R)
+		policySide()
 	}
 
 	e.Finish("one evaluation = one public call (NewReader in a given mode, SequentialScan+MakeReader, Get, DecodeStream+ReadAll, a typed decode or page walk) run with the byte source failing at one ReadAt index in one fault mode, or one Writer program run with the sink failing at one Write/Seek index; non-trivial = the injected fault actually fired during the call; all indices of every call are enumerated",
-		map[string]any{"documents": len(docs), "watchdog_timeouts": hangs})
+		map[string]any{"documents": len(docs), "watchdog_timeouts": hangs, "failing_cases_by_signature": failsPerSig})
 }
